@@ -9,7 +9,7 @@ Definition dgrams_eqb (a b : list (list N)) : bool := all2 list_eqb a b.
    batch_path = 1: the local side was a real *net.UDPConn (sendmmsg batch writer of the regenerated capacity) *)
 Definition run_deframe (v : tval) : dres :=
   let s := vb (vnth 1 v) in
-  deframe_on (if vbool (vnth 9 v) then Some UdpBatchWriterCap else None) (S (length s)) (ust0 s (map vnat (vl (vnth 2 v))) (vn (vnth 3 v)) (vbool (vnth 4 v)) (dec_optn (vnth 5 v))).
+  deframe_on (if vbool (vnth 9 v) then Some UdpBatchWriterCap else None) (S (length s + length (vl (vnth 10 v)))) (ust0e s (map vnat (vl (vnth 2 v))) (vn (vnth 3 v)) (vbool (vnth 4 v)) (map vbool (vl (vnth 10 v))) (dec_optn (vnth 5 v))).
 Definition check_deframe (v : tval) : bool :=
   match run_deframe v with
   | DFuel => false
@@ -29,7 +29,7 @@ Definition check_encode (v : tval) : bool :=
                                                            how it is handed to the relay: SideC12.wrap_cfg)
      obs  = [to_b; to_a; sent; recv; send_err; recv_err; cw_a; cw_b; closes_a; closes_b; io_after_close; cwf_a; cwf_b] *)
 Definition dec_dir (src dst : tval) : dirst :=
-  dirw (vb (vnth 0 src)) (map vnat (vl (vnth 1 src))) (vn (vnth 2 src)) (vbool (vnth 3 src))
+  dirwe (vb (vnth 0 src)) (map vnat (vl (vnth 1 src))) (vn (vnth 2 src)) (vbool (vnth 3 src)) (map vbool (vl (vnth 7 src)))
        (dec_optn (vnth 4 dst)) (vbool (vnth 5 dst)) (wrap_cfg (vn (vnth 6 dst))).
 Definition run_tcp (v : tval) : st tsh (nat * tpc) :=
   run tsh (nat * tpc) (tstep CopyBufferSize)
